@@ -12,12 +12,13 @@ mvars == <<svars, hist, results>>
 
 KeyFor(d) == IF d = "a" THEN "k1" ELSE "k2"
 Ops(d) == { <<"create", d, NoKey>>, <<"create", d, KeyFor(d)>>, <<"open", d>>, <<"close", d>>,
-            <<"setkey", d, "k1">>, <<"setkey", d, "k2">>, <<"setkey", d, "k3">>, <<"removekey", d>> }
-AllOps == UNION {Ops(d) : d \in Dbs}
+            <<"setkey", d, "k1">>, <<"setkey", d, "k2">>, <<"setkey", d, "k3">>, <<"removekey", d>>,
+            <<"genkey", d>> }
+AllOps == UNION {Ops(d) : d \in Dbs} \cup {<<"setkey", Primary, "k3">>, <<"genkey", Primary>>}
 
 \* operations worth exploring from a state: the ones that succeed, plus one refused operation of each kind
 Useful(op) ==
-  \/ Apply(op).res = "ok" /\ (<<Apply(op).exists, Apply(op).open, Apply(op).bound>> # <<exists, open, bound>> \/ op[1] = "setkey")
+  \/ Apply(op).res = "ok" /\ (<<Apply(op).exists, Apply(op).open, Apply(op).bound>> # <<exists, open, bound>> \/ op[1] \in {"setkey", "genkey"})
   \/ Len(hist) = MaxLen - 1 /\ Apply(op).res # "ok"
 
 MCInit == Init /\ hist = <<>> /\ results = <<>>
@@ -31,7 +32,7 @@ MCNext ==
 MCSpec == MCInit /\ [][MCNext]_mvars
 
 ScopeSeq == <<"root", Primary, "a", "b", "missing", "bad">>
-TokenSeq == <<"none", "garbage", "adm", "k1", "k2", "k3">>
+TokenSeq == <<"none", "garbage", "adm", "k1", "k2", "k3", "ga", "gb">>
 KindSeq == <<"root", "db", "both", "unknown">>
 
 Case ==
